@@ -14,6 +14,10 @@ import (
 	"io"
 	"os"
 	"path/filepath"
+	"regexp"
+	"strconv"
+	"sync"
+	"sync/atomic"
 	"testing"
 	"time"
 
@@ -38,6 +42,74 @@ type vfC02Case struct {
 	Files  []vfFile      `json:"files"` // top-level regular files
 	Faults []vfFaultSpec `json:"faults"`
 	Prev   int           `json:"prev"` // 0: empty destination; n>0: the destination already holds the first 1/n of every file (resume hash exchange with -y)
+	Lies   []vfLie       `json:"lies,omitempty"`
+}
+
+// vfLie is a pair of cooperating faults, one per direction: the number in the Occ-th message of type Typ is changed on its way to
+// the receiver, and the receiver's echo of the changed number is changed back on its way to the sender - damage that the echo
+// check cannot see, so that whatever else guards the file (step accounting, the digest) has to.
+type vfLie struct {
+	Typ   string `json:"typ"` // NUM SIZE
+	Occ   int    `json:"occ"`
+	Delta int64  `json:"delta"`
+	Frac  int64  `json:"frac16,omitempty"` // >0: the number becomes n*Frac/16 instead of n+Delta
+	Echo  bool   `json:"echo"` // false: only the forward half (the echo check sees it)
+}
+
+var vfNumLineRe = regexp.MustCompile(`^(#[A-Za-z]+:)(-?\d+)([^0-9].*|)$`)
+
+func vfInstallLie(lie vfLie, fwd, back *vfLink, applied *int32) {
+	var mu sync.Mutex
+	occ := 0
+	armed := false
+	var told, real string
+	fwd.rewrites = append(fwd.rewrites, func(m vfMsg, line []byte) []byte {
+		if m.Typ != lie.Typ {
+			return nil
+		}
+		mu.Lock()
+		defer mu.Unlock()
+		occ++
+		if occ-1 != lie.Occ {
+			return nil
+		}
+		mm := vfNumLineRe.FindSubmatch(bytes.TrimRight(line, "\r\n"))
+		if mm == nil {
+			return nil
+		}
+		n, err := strconv.ParseInt(string(mm[2]), 10, 64)
+		if err != nil {
+			return nil
+		}
+		n2 := n + lie.Delta
+		if lie.Frac > 0 {
+			if n2 = n * lie.Frac / 16; n2 == n {
+				n2 = n - 1
+			}
+		}
+		if n2 < 0 {
+			n2 = 0
+		}
+		if n2 == n {
+			return nil
+		}
+		real, told, armed = string(mm[2]), strconv.FormatInt(n2, 10), lie.Echo
+		atomic.AddInt32(applied, 1)
+		return bytes.Replace(line, mm[2], []byte(told), 1)
+	})
+	back.rewrites = append(back.rewrites, func(m vfMsg, line []byte) []byte {
+		mu.Lock()
+		defer mu.Unlock()
+		if !armed || m.Typ != "SUCC" {
+			return nil
+		}
+		mm := vfNumLineRe.FindSubmatch(bytes.TrimRight(line, "\r\n"))
+		if mm == nil || string(mm[2]) != told {
+			return nil
+		}
+		armed = false
+		return bytes.Replace(line, mm[2], []byte(real), 1)
+	})
 }
 
 type vfC02Res struct {
@@ -175,8 +247,17 @@ func vfC02Run(cs vfC02Case, res *vfC02Res) string {
 		link.faults = append(link.faults, f)
 		res.phases = append(res.phases, fs.Dir+":"+phase+":"+fs.Kind)
 	}
+	var lied int32
+	for _, lie := range cs.Lies {
+		fwd, back := r.s2c, r.c2s
+		if cs.Cfg.Upload {
+			fwd, back = r.c2s, r.s2c
+		}
+		vfInstallLie(lie, fwd, back, &lied)
+		res.phases = append(res.phases, fmt.Sprintf("lie:%s:echo%v", lie.Typ, lie.Echo))
+	}
 	r.run(paths, dest, 45*time.Second)
-	res.applied = r.c2s.appliedFaults() + r.s2c.appliedFaults()
+	res.applied = r.c2s.appliedFaults() + r.s2c.appliedFaults() + int(atomic.LoadInt32(&lied))
 	if r.hung {
 		res.outcome = "hang"
 		return "" // hangs are C11's business; counted as inconclusive by the caller
@@ -252,6 +333,20 @@ func vfGenC02(rt *rapid.T) vfC02Case {
 		}
 	}
 	nf := rapid.IntRange(1, 3).Draw(rt, "nfaults")
+	if rapid.IntRange(0, 3).Draw(rt, "lying") == 0 {
+		// cooperating faults: the receiver is told a different count or size and its echo is repaired on the way back
+		nf = rapid.IntRange(0, 1).Draw(rt, "nfaults_with_lie")
+		nl := rapid.IntRange(1, 2).Draw(rt, "nlies")
+		for i := 0; i < nl; i++ {
+			cs.Lies = append(cs.Lies, vfLie{
+				Typ:   rapid.SampledFrom([]string{"SIZE", "SIZE", "SIZE", "NUM"}).Draw(rt, "lietyp"),
+				Occ:   rapid.IntRange(0, n-1).Draw(rt, "lieocc"),
+				Delta: rapid.SampledFrom([]int64{-1, 1, -2, -10, -100, -500, -1000, -1024, -1025, -4096, -10000, 100, 1024, 5000, -1 << 40, 1 << 40}).Draw(rt, "liedelta"),
+				Echo:  rapid.IntRange(0, 4).Draw(rt, "lieecho") != 0,
+				Frac:  rapid.SampledFrom([]int64{0, 0, 15, 15, 14, 12, 8, 4, 17, 20, 32}).Draw(rt, "liefrac"),
+			})
+		}
+	}
 	for i := 0; i < nf; i++ {
 		var f vfFaultSpec
 		f.Dir = rapid.SampledFrom([]string{"c2s", "s2c"}).Draw(rt, "dir")
